@@ -371,7 +371,8 @@ pub fn check_sub(r: &mut Recorder, c: &Value) {
                         }
                         // == &str is true ONLY for the canonical text (C12, C15): other spellings and neighbours are unequal
                         let mut others: Vec<String> = vec![txt.to_ascii_uppercase(), txt.to_ascii_lowercase(), format!("{}a", txt), txt[..txt.len() - 1].to_string(),
-                                                           format!(" {}", txt), String::new()];
+                                                           format!(" {}", txt), String::new(), format!("{}\0", txt), format!("{}\0\0\0\0\0\0", txt), format!("\0{}", txt),
+                                                           format!("{} ", txt), format!("{}-", txt)];
                         if let Ok(raw) = std::str::from_utf8(&s) { others.push(raw.to_string()); }
                         for o in others {
                             if o != txt && (v == o.as_str()) {
